@@ -1,24 +1,4 @@
 package spec
 
-// entries whose key names the entry context in which the obligation is not discharged
-func init() {
-	for k, v := range assumedBoundsVia {
-		Assumed[k] = v
-	}
-}
-
-var assumedBoundsVia = map[string]string{
-	"BOUNDS.CTR|codecs.(*H265Payloader).Payload$1|emitted fragment fits the MTU: append(payloads, buf) [via codecs.(*H265Payloader).Payload]":    `every buffered unit passed the fit test len(nalu)+2(+2 with DONL) <= mtu, and aggregationBufferSize is the running sum of the marginal sizes, reset by the flush that the test aggregationBufferSize+marginal > mtu forces; the bound is a sum over the elements of bufferedNALUs, which the linear domain does not track (a slice of slices)`,
-	"BOUNDS.CTR|codecs.(*H265Payloader).Payload$1|emitted fragment fits the MTU: append(payloads, out) [via codecs.(*H265Payloader).Payload]":    `every buffered unit passed the fit test len(nalu)+2(+2 with DONL) <= mtu, and aggregationBufferSize is the running sum of the marginal sizes, reset by the flush that the test aggregationBufferSize+marginal > mtu forces; the bound is a sum over the elements of bufferedNALUs, which the linear domain does not track (a slice of slices)`,
-	"BOUNDS.CTR|codecs.(*H265Payloader).Payload$1|emitted fragment fits the MTU: append(payloads, buf) [via codecs.(*H265Payloader).Payload] #2": `every buffered unit passed the fit test len(nalu)+2(+2 with DONL) <= mtu, and aggregationBufferSize is the running sum of the marginal sizes, reset by the flush that the test aggregationBufferSize+marginal > mtu forces; the bound is a sum over the elements of bufferedNALUs, which the linear domain does not track (a slice of slices)`,
-	`BOUNDS.IDX|codecs.(*AV1Payloader).appendOBUPayload|payloads[currentPayload] [via codecs.(*AV1Payloader).Payload] #10`:                       `AV1 aggregation budget: currentPayload = len(payloads)-1 >= 0 after the new-packet branch and toWrite <= min(remaining, freeSpace) by computeWriteSize; relations over a slice of slices and a three-way case split on the LEB128 size class are outside the linear domain (DESIGN 3.1, MTU clause for AV1 listed as not decided)`,
-	`BOUNDS.IDX|codecs.(*AV1Payloader).appendOBUPayload|payloads[currentPayload] [via codecs.(*AV1Payloader).Payload] #11`:                       `AV1 aggregation budget: currentPayload = len(payloads)-1 >= 0 after the new-packet branch and toWrite <= min(remaining, freeSpace) by computeWriteSize; relations over a slice of slices and a three-way case split on the LEB128 size class are outside the linear domain (DESIGN 3.1, MTU clause for AV1 listed as not decided)`,
-	`BOUNDS.IDX|codecs.(*AV1Payloader).appendOBUPayload|payloads[currentPayload] [via codecs.(*AV1Payloader).Payload] #12`:                       `AV1 aggregation budget: currentPayload = len(payloads)-1 >= 0 after the new-packet branch and toWrite <= min(remaining, freeSpace) by computeWriteSize; relations over a slice of slices and a three-way case split on the LEB128 size class are outside the linear domain (DESIGN 3.1, MTU clause for AV1 listed as not decided)`,
-	`BOUNDS.IDX|codecs.(*AV1Payloader).appendOBUPayload|payloads[currentPayload] [via codecs.(*AV1Payloader).Payload] #13`:                       `AV1 aggregation budget: currentPayload = len(payloads)-1 >= 0 after the new-packet branch and toWrite <= min(remaining, freeSpace) by computeWriteSize; relations over a slice of slices and a three-way case split on the LEB128 size class are outside the linear domain (DESIGN 3.1, MTU clause for AV1 listed as not decided)`,
-	`BOUNDS.IDX|codecs.(*AV1Payloader).appendOBUPayload|payloads[currentPayload] [via codecs.(*AV1Payloader).Payload] #7`:                        `AV1 aggregation budget: currentPayload = len(payloads)-1 >= 0 after the new-packet branch and toWrite <= min(remaining, freeSpace) by computeWriteSize; relations over a slice of slices and a three-way case split on the LEB128 size class are outside the linear domain (DESIGN 3.1, MTU clause for AV1 listed as not decided)`,
-	`BOUNDS.IDX|codecs.(*AV1Payloader).appendOBUPayload|payloads[currentPayload] [via codecs.(*AV1Payloader).Payload] #8`:                        `AV1 aggregation budget: currentPayload = len(payloads)-1 >= 0 after the new-packet branch and toWrite <= min(remaining, freeSpace) by computeWriteSize; relations over a slice of slices and a three-way case split on the LEB128 size class are outside the linear domain (DESIGN 3.1, MTU clause for AV1 listed as not decided)`,
-	`BOUNDS.IDX|codecs.(*AV1Payloader).appendOBUPayload|payloads[currentPayload] [via codecs.(*AV1Payloader).Payload] #9`:                        `AV1 aggregation budget: currentPayload = len(payloads)-1 >= 0 after the new-packet branch and toWrite <= min(remaining, freeSpace) by computeWriteSize; relations over a slice of slices and a three-way case split on the LEB128 size class are outside the linear domain (DESIGN 3.1, MTU clause for AV1 listed as not decided)`,
-	`BOUNDS.MK|codecs.(*H265Payloader).Payload$1|make([]byte, aggregationPacketSize) [via codecs.(*H265Payloader).Payload]`:                      `H265 aggregation buffer: every buffered NAL unit has len >= 2 (appended only after the len(nalu) < 2 guard in the emit closure) and aggregationBufferSize is the sum of the marginal sizes computed by calcMarginalAggregationSize for exactly the bytes written here; sum-over-collection invariant outside the linear domain (DESIGN 3.1)`,
-	`BOUNDS.SLC|codecs.(*AV1Payloader).appendOBUPayload|obuPayload[:toWrite] [via codecs.(*AV1Payloader).Payload] #2`:                            `AV1 aggregation budget: currentPayload = len(payloads)-1 >= 0 after the new-packet branch and toWrite <= min(remaining, freeSpace) by computeWriteSize; relations over a slice of slices and a three-way case split on the LEB128 size class are outside the linear domain (DESIGN 3.1, MTU clause for AV1 listed as not decided)`,
-	`BOUNDS.SLC|codecs.(*AV1Payloader).appendOBUPayload|obuPayload[toWrite:] [via codecs.(*AV1Payloader).Payload] #2`:                            `AV1 aggregation budget: currentPayload = len(payloads)-1 >= 0 after the new-packet branch and toWrite <= min(remaining, freeSpace) by computeWriteSize; relations over a slice of slices and a three-way case split on the LEB128 size class are outside the linear domain (DESIGN 3.1, MTU clause for AV1 listed as not decided)`,
-}
+// superseded by assumed_bounds_parts.go (tools/regen_assumed.sh); kept empty so that the history of the table stays readable in git
+var assumedBoundsVia = map[string]string{}
